@@ -44,6 +44,9 @@ def rename_fields(fields, resources=None, regex=True):
                             renames[res_name][sf_name] = target_name
                             sf['name'] = target_name
                             break
+                final_names = [sf['name'] for sf in schema_fields]
+                assert len(set(final_names)) == len(final_names),\
+                    f'Renaming a field to the name of an existing field in "{res_name}"'
         not_matched = [
             src.pattern for src, _ in field_res
             if src.pattern not in matched
